@@ -106,6 +106,10 @@ SolveStep(ev) ==
                 /\ Always(Chk(ev, okSt <=> full, "solve-wrong-status",
                        IF full THEN "full column rank but status " \o ToString(ev.ret) \o " (" \o dims \o ")"
                        ELSE "rank " \o ToString(Rank(M, q)) \o " < " \o ToString(q) \o " but status OK (" \o dims \o ")"))
+                /\ (IF "cs" \in DOMAIN ev
+                    THEN /\ Always(Chk(ev, ev.cd = ev.cs, "copy-wrong-result", "copy of the matrix the solver worked on differs from it (" \o dims \o ")"))
+                         /\ Always(Chk(ev, ev.rd = ev.rs, "copy-wrong-result", "copy over the matrix the solver worked on differs from its source (" \o dims \o ")"))
+                    ELSE TRUE)
                 /\ (IF okSt /\ full
                     THEN IF sym THEN Always(Chk(ev, (\A j \in 1 .. q : x[j] \subseteq 0 .. (p - 1)) /\ IsLeftInverse(M, q, T), "solve-wrong-solution",
                                                 "returned combinations of the equations are not a left inverse of the matrix (" \o dims \o ")"))
